@@ -77,9 +77,10 @@ def _arm_constants(b, field_name):
 class _Factors:
     """multiplicative factorisation of a float expression: constant product, number of length factors"""
 
-    def __init__(self, b, length_locals, length_upvars=(), F=None, vidx=None):
+    def __init__(self, b, length_locals, length_upvars=(), F=None, vidx=None, parent=None):
         self.F = F
         self.vidx = vidx
+        self.parent = parent
         self.b = b
         self.defs = Defs(b)
         self.len_locals = length_locals
@@ -106,6 +107,19 @@ class _Factors:
         if self.is_length_place(pl):
             self.degree += sign
             return
+        names = [p.get("n") for p in pl["p"] if isinstance(p, dict) and "f" in p]
+        if pl["l"] == 1 and self.b.is_closure() and names and self.parent is not None:
+            # a factor computed once in the enclosing function and captured (`let area0 = e^(..) * PI * l * l;`): factorise its
+            # definition there
+            pb, plens = self.parent
+            for l2 in range(len(pb.locals)):
+                if pb.lname(l2) == names[0] and Defs(pb).of(l2):
+                    sub = _Factors(pb, plens, (), self.F, self.vidx)
+                    sub.visit({"k": "copy", "place": {"l": l2, "p": []}}, 1, depth + 1)
+                    self.const = self.const * sub.const if sign > 0 else self.const / sub.const
+                    self.degree += sign * sub.degree
+                    self.opaque += sub.opaque
+                    return
         if [p for p in pl["p"] if p != "*"]:
             self.opaque += 1
             return
@@ -250,14 +264,14 @@ def _weights_of(F, b):
                     if d2[0] == "stmt" and d2[4]["k"] == "ref":
                         recv.add(d2[4]["place"]["l"])
                 elem_is_length = bool(recv & lens)
-                f = _Factors(cb, {2} if elem_is_length else set(), len_names, F, vidx)
+                f = _Factors(cb, {2} if elem_is_length else set(), len_names, F, vidx, (b, lens))
                 f.visit({"k": "copy", "place": {"l": 0, "p": []}})
                 return vidx, f
             if name in ("from_shape_fn", "map") and len(t["args"]) == 2:
                 cb = F.body(boolsum.closure_def_of_type(b.opty(t["args"][1])) or "")
                 if cb is None:
                     return vidx, None
-                f = _Factors(cb, set(), len_names, F, vidx)
+                f = _Factors(cb, set(), len_names, F, vidx, (b, lens))
                 f.visit({"k": "copy", "place": {"l": 0, "p": []}})
                 return vidx, f
             if name in ("collect", "from_iter", "from_vec", "from", "into") and t["args"] and t["args"][0].get("k") in ("copy", "move"):
